@@ -76,10 +76,18 @@ def run(ctx):
             sh = p.ret_shape()
             clears = [e for e in p.stores() if pa.vfmt(e[4]).endswith(".writing")]
             takes = [e for e in p.calls("core::option::Option::take", "core::mem::take", "core::mem::replace") if "writing" in pa.vfmt(e[3][0])]
-            if sh == "Pending" or sh.startswith("Residual") or "Err" in sh:
-                ctx.check(not clears and not takes, "C17-b", pr.key, "pending buffer kept when the write parks or fails (%s)" % sh[:20],
+            if sh == "Pending":
+                ctx.check(not clears and not takes, "C17-b", pr.key, "pending buffer kept when the write parks (Pending)",
                           "poll_ready returns %s on a path that took or cleared `writing`: the unwritten tail of the buffer is dropped and the "
                           "peer receives a truncated stream" % sh, "", None, p.describe())
+            elif sh.startswith("Residual") or "Err" in sh:
+                # a write that failed is over: the buffer is dropped, so that the next send_data is not answered with the adapter's own
+                # `write in progress` error (a connection-level InternalError - a cancelled request would close the connection, C07)
+                cleared = [e for e in clears if e[3][0] == "agg" and e[3][2] == "None"] or takes
+                ctx.check(bool(cleared), "C17-b", pr.key, "buffer dropped when the write fails",
+                          "poll_ready returns %s with the unwritten buffer still in `writing`: the stream can never be written again, and the next "
+                          "send_data (e.g. the grease frame written by finish()) is refused as an internal error, which h3 raises at connection "
+                          "level" % sh[:40], "", None, p.describe())
             if clears and sh.startswith("Ready(Ok"):
                 hr = [t for t in p.tests if t[3][0] == "call" and pa.short(t[3][1]) == "has_remaining"]
                 wr = [t for t in p.tests if t[3][0] == "discr" and "writing" in t[1]]
